@@ -3,8 +3,8 @@
 # (all drivers/thr_*.c when DRIVER is unset) into $OUT
 set -e
 REPO=${REPO:-/repo}
-OUT=${OUT:-/verif/build/thread}
-V=/verif
+OUT=${OUT:-$(cd "$(dirname "$0")/.." && pwd)/build/thread}
+V=${V:-$(cd "$(dirname "$0")/.." && pwd)}
 mkdir -p $OUT/lib
 INST="-std=gnu11 -O1 -g -fno-inline -fno-omit-frame-pointer -fsanitize=thread --param tsan-distinguish-volatile=1"
 DEFS="-DFIBER_STACK_MALLOC -DFIBER_FAST_SWITCHING -DLIBFIBER_VERIF -DNDEBUG -D_GNU_SOURCE"
